@@ -11,7 +11,7 @@ TRUSTED_BASE = [
 PROPS = {
     "C02": {
         "coq": "Properties/C02.v",
-        "pinchecks": ["PinChecks/PcEffector.v"],
+        "pinchecks": ["PinChecks/PcEffector.v", "PinChecks/PcEffectorGen.v"],
         "gen": "c02",
         "level_text": "Coq theorems (c02_result, c02_early_final, c02_cap_complete, c02_next_readable, c02_forced_*) prove for every "
                       "effect rule and every finite sequence (unbounded length) that the streaming combiner equals the declarative "
@@ -54,7 +54,7 @@ PROPS = {
     "C01": {
         "coq": "Properties/C01.v",
         "coq_extra": ["Properties/C16e.v"],
-        "pinchecks": ["PinChecks/PcBody_enf.v", "PinChecks/PcLiterals.v", "PinChecks/PcBody_fmacros.v", "PinChecks/PcEffector.v",
+        "pinchecks": ["PinChecks/PcBody_enf.v", "PinChecks/PcLiterals.v", "PinChecks/PcBody_fmacros.v", "PinChecks/PcEffector.v", "PinChecks/PcEffectorGen.v",
                       "PinChecks/PcBody_fconvert.v", "PinChecks/PcBody_util.v"],
         "gen": "c01",
         "level_text": "Coq theorem c01_enforce_is_perm: for EVERY model store, matcher AST, function table, request (any arity/types), "
@@ -100,7 +100,7 @@ ENGINE_NOTE = ("trusted: Coq kernel, extraction, harness; modelled not verified:
 PROPS.update({
     "C06": {
         "coq": "Properties/C06.v",
-        "pinchecks": ["PinChecks/PcBody_enf.v", "PinChecks/PcBody_fmap.v", "PinChecks/PcLiterals.v", "PinChecks/PcEffector.v", "PinChecks/PcBody_fconvert.v",
+        "pinchecks": ["PinChecks/PcBody_enf.v", "PinChecks/PcBody_fmap.v", "PinChecks/PcLiterals.v", "PinChecks/PcEffector.v", "PinChecks/PcEffectorGen.v", "PinChecks/PcBody_fconvert.v",
                       "PinChecks/PcBody_fmacros.v", "PinChecks/PcRoleGraph.v"],
         "gen": "c06",
         "partial": "never-hang / never-panic of the regex crate and of rhai is NOT a theorem: it is watchdog + catch_unwind evidence from the differential run; "
